@@ -14,7 +14,7 @@ ASSUMPTIONS = [
     "can be scheduled now (or on an explicit wait action when waits are enabled)",
     "file instances: FJSP/JSSP text files written by the harness and read through the env's file generators",
 ]
-REQUIRED_COUNTERS = ["c07_ffsp_multistart_rows", "episodes", "c07_schedules_checked", "c07_simulations"]
+REQUIRED_COUNTERS = ["c07_stepwise_reward_sums", "c07_ffsp_multistart_rows", "episodes", "c07_schedules_checked", "c07_simulations"]
 MIN_NONTRIVIAL = {"quick": 3000, "thorough": 30000}
 WORKERS = {"quick": 12, "thorough": 16}
 BUDGET_S = {"quick": 400, "thorough": 3000}
